@@ -149,7 +149,10 @@ IsNanSkipping(func) ==
 Specified(func, s) ==
   LET d == DropNaN(s) IN
   CASE func \in {"argmax", "argmin"}       -> ~HasNaN(s)
-    [] func \in {"nanargmax", "nanargmin"} -> d # <<>>
+    \* NumPy documents that nanargmax/nanargmin "cannot be trusted" when NaN and -inf/+inf meet
+    \* (it substitutes -inf/+inf for NaN): unspecified when the extreme itself is that infinity
+    [] func = "nanargmax" -> d # <<>> /\ ~(HasNaN(s) /\ MaxSeq(d) = NInf)
+    [] func = "nanargmin" -> d # <<>> /\ ~(HasNaN(s) /\ MinSeq(d) = PInf)
     [] func \in {"median", "nanmedian", "quantile", "nanquantile"} ->
          \A i \in 1..Len(s) : ~IsInf(s[i])
     [] func = "user_nanrange" -> d # <<>>   \* user library: needs min_count >= 1 to be defined on all-NaN groups
